@@ -10,7 +10,8 @@ RULE = ('flat: every integer operator x (boundary pool x boundary pool, exhausti
         'several compilers/-O levels and with the builtin and the fallback bit-counting paths; expr: random integer '
         'expression trees (select, local.tee, nested operators, wrap/extend) as exported functions called with pool '
         'and random arguments, plus constant-operand instruction windows (const a; op1; const b; op2 for the shift / rotate / mask / '
-        'multiply-divide pairs toolchains emit as idioms, equal immediates at every count, and arbitrary operator pairs). Non-trivial = the evaluation hits a hazard class (shift/rotate count 0 or >= width, '
+        'multiply-divide pairs toolchains emit as idioms, equal immediates at every count, and arbitrary operator pairs) and divisions / '
+        'remainders whose result is dropped or never read (the trap must still happen). Non-trivial = the evaluation hits a hazard class (shift/rotate count 0 or >= width, '
         'divisor 0 or -1, dividend INT_MIN, clz/ctz/popcnt of 0 or all-ones, sign bit set in a signed '
         'comparison/shift/extension, carry out of the top bit) or traps; distinct by (operator or body, operands).')
 ASSUME = ['reference interpreter calibrated against the spec-suite expectations in /repo/tests/gen (vf.spec)',
@@ -58,6 +59,24 @@ def make_expr(ch, params):
         body = [('local.get', 0), ('%s.const' % t, a), ('%s.%s' % (t, op1),), ('%s.const' % t, b), ('%s.%s' % (t, op2),)]
         m.funcs.append(Func(m.type_index((t,), (t,)), [], body))
         m.exports.append((b'peep%d' % k, 'func', len(m.funcs) - 1))
+    # operations whose result is thrown away (drop, or a local that is never read): the instruction still traps when the
+    # specification says so - an optimising C compiler may only remove what has no effect
+    for k in range(4):
+        t = ch.pick((I32, I64))
+        op = ch.pick(('div_s', 'div_u', 'rem_s', 'rem_u'))
+        how = ch.below(3)
+        body = [('local.get', 0), ('local.get', 1), ('%s.%s' % (t, op),)]
+        locs = []
+        if how == 0:
+            body += [('drop',)]
+        elif how == 1:
+            locs = [t]
+            body += [('local.set', 2)]
+        else:
+            body += [('local.get', 0), ('%s.%s' % (t, ch.pick(('div_s', 'rem_u'))),), ('drop',)]
+        body += [('%s.const' % t, 7)]
+        m.funcs.append(Func(m.type_index((t, t), (t,)), locs, body))
+        m.exports.append((b'dead%d' % k, 'func', len(m.funcs) - 1))
     script = [('inst', 0)]
     fex = [(n, i) for n, kd, i in m.exports if kd == 'func']
     for e, (n, fi) in enumerate(fex):
@@ -68,6 +87,11 @@ def make_expr(ch, params):
             wbits = 32 if ps[0] == I32 else 64
             for v in (0x80, 0x100, 0x8000, 0x10000, 0x800000, 0x1000000, 0x7f, 0xff, 0xffff, 1 << (wbits - 1), (1 << wbits) - 1, 0x0123456789abcdef):
                 script.append(('call', 0, e, [v & ((1 << wbits) - 1)]))
+        if n.startswith(b'dead'):
+            wbits = 32 if ps[0] == I32 else 64
+            mn = 1 << (wbits - 1)
+            for a, b in ((5, 0), (0, 0), (mn, (1 << wbits) - 1), (mn, 0), (7, 1), ((1 << wbits) - 1, (1 << wbits) - 1), (mn, 1)):
+                script.append(('call', 0, e, [a, b]))
         if n.startswith(b'idiom'):
             script.append(('call', 0, e, [0]))
             script.append(('call', 0, e, [(1 << (32 if ps[0] == I32 else 64)) - 1]))
